@@ -479,7 +479,22 @@ Fixpoint read_while (fuel : nat) (p : Z -> bool) (w : list N) : M (list N) :=
            else ret (rev w)
   end.
 Definition read_symbol : M (list N) := with_fuel (fun f => read_while f is_identifier_part []).
-Definition read_operator : M (list N) := with_fuel (fun f => read_while f is_operator_char []).
+(* readOperator: a comment ends the operator (`+//` is `+` and a comment) *)
+Fixpoint read_operator_loop (fuel : nat) (w : list N) : M (list N) :=
+  match fuel with
+  | O => nofuel
+  | S f =>
+    tdo c <- t_peek;
+    if is_operator_char c then
+      tdo stop <- (if c =? c_slash then
+                     tdo '(cs, _) <- t_peekN 2;
+                     ret ((length cs =? 2)%nat && ((znth cs 1 =? c_slash) || (znth cs 1 =? c_star)))
+                   else ret false);
+      if stop then ret (rev w)
+      else tdo _ <- t_read; read_operator_loop f (byte_of c :: w)
+    else ret (rev w)
+  end.
+Definition read_operator : M (list N) := with_fuel (fun f => read_operator_loop f []).
 
 (* checkUTF8: the text as read from the input must be valid UTF-8 *)
 Definition check_utf8 (v : list N) : M (list N) := if utf8_valid v then ret v else fail.
